@@ -349,6 +349,10 @@ class Handle:
 
     def fileno(self):
         self._chk()
+        if self.writable_:
+            # destinations have no OS-level descriptor in this model: the code under test takes its portable
+            # write paths (file.write); descriptor fast paths are the subject of C04
+            raise io.UnsupportedOperation("fileno")
         return self
 
     def readable(self):
